@@ -91,7 +91,13 @@ def ref_bins(cp):
             bins = partition(tv, n)
     else:
         for b in cp['bins']:
-            if b[1] == 'bin':
+            if b[1] == 'wild':
+                # wildcard bin given as (value, mask): the values of the type that agree on the mask bits
+                val, mask = b[2]
+                s = set(v for v in type_values(cp['type']) if (v & mask) == (val & mask)) - excl
+                if s:
+                    bins.append(sorted(s))
+            elif b[1] == 'bin':
                 s = items_values(b[2:]) - excl
                 if s:
                     bins.append(sorted(s))
@@ -128,10 +134,12 @@ def build_cg(spec, extra_cls_body=None):
                 kw = {}
                 if cp.get('bins'):
                     d = {}
-                    for b in cp['bins']:
+                    for b in (variant['bins0'] if (variant is not None and i == 0 and variant.get('bins0')) else cp['bins']):
                         if variant is not None and b[0] in variant.get('drop_bins', ()):
                             continue
-                        if b[1] == 'bin':
+                        if b[1] == 'wild':
+                            d[b[0]] = vsc.wildcard_bin(tuple(b[2]))
+                        elif b[1] == 'bin':
                             d[b[0]] = vsc.bin(*_args(b[2:]))
                         else:
                             d[b[0]] = vsc.bin_array([] if b[2] is None else [b[2]], *_args(b[3:]))
